@@ -32,6 +32,17 @@ def scenarios(tier):
     # two invocations reach one file through different names of its directory (a symbolic link): still one lock
     wl = World("one-link", {"s": ["0", "1"], "d/k": ["0"]}, {"d/y.do": [S(deps=["../s"])]}, ["d/y"], ["d/y"], symlinks={"ld": "d"})
     L.append((SC.scn("S7-two-names-of-one-directory", wl, ["redo-ifchange ld/y", "redo-ifchange d/y"], visible=VIS), 1 if q else 2))
+    # the user edits a source while the run is in progress: gen (checksummed) is rebuilt out of band for T0's top; while its
+    # script runs, a second invocation starts to wait for gen's lock and the source changes again, so gen is dirty once more
+    # when redo-unlocked reaches its second step -- whoever rebuilds it then must hold its lock
+    we = World("oob-edit", {"src": ["0", "1", "2"]},
+               {"top.do": [S(deps=["gen"])],
+                "gen.do": [S(kind="csum", deps=["src"], out="file", sync=(("mid", "wait", "b-started"), ("mid", "ask", "edit-src")))],
+                "bb.do": [S(deps=["gen"], sync=(("start", "set", "b-started"),))]},
+               ["top", "gen", "bb"], ["top"])
+    L.append((SC.scn("S8-source-edited-during-oob-rebuild", we, ["redo-ifchange top", "redo-ifchange bb"],
+                     setup=[["ifchange", ["top"]], ["edit", "src", "2"]], on_ask={"edit-src": [["edit", "src", "1"]]},
+                     visible=VIS), 1 if q else 2))
     if not q:
         L.append((SC.scn("S6b-tree-kill-shared-dep", w["shared"], ["redo-ifchange t1", "redo-ifchange t2"],
                          visible=VIS, kill_roots=["T0"], expect_ok=["T1"]), 2))
